@@ -459,8 +459,10 @@ class HierarchicalTree(BaseTree):
 
         self._model.merge_hook = merge_hook
 
-        result = self._model.fit(series, *args, **kwargs)
-        self._model.merge_hook = old_merge_hook
+        try:
+            result = self._model.fit(series, *args, **kwargs)
+        finally:
+            self._model.merge_hook = old_merge_hook
         return result
 
 
